@@ -337,4 +337,149 @@ theorem Inv_run (ops : List (Op ν α)) : ∀ (s : St ν α), WF s → Inv s →
 
 end
 
+/-! ### `fit_names` never raises -/
+
+section
+variable {ν α : Type} [DecidableEq ν] [LT α] [DecidableLT α] [OfNat α 0] [Mul α] [Transc α]
+
+/-- every compiled row finds a prior under its name in `_fit_priors` (so `fit_names` cannot raise) -/
+def Covered (s : St ν α) : Prop := ∀ e ∈ s.compiled, (tget s.fitPriors e.name).isSome = true
+
+theorem mem_zip_of_mem {β γ : Type} : ∀ (l₁ : List β) (l₂ : List γ), l₁.length = l₂.length → ∀ a ∈ l₁, ∃ b, (a, b) ∈ l₁.zip l₂ := by
+  intro l₁
+  induction l₁ with
+  | nil => intro l₂ _ a ha; simp at ha
+  | cons x xs ih =>
+    intro l₂ hl a ha
+    cases l₂ with
+    | nil => simp at hl
+    | cons y ys =>
+      simp only [List.mem_cons] at ha
+      rcases ha with rfl | ha
+      · exact ⟨y, by simp⟩
+      · obtain ⟨b, hb⟩ := ih ys (by simpa using hl) a ha
+        exact ⟨b, by simp [hb]⟩
+
+theorem tget_tset_isSome (t : Table ν α) (n m : ν) (p : Prior α) (h : (tget t m).isSome = true) :
+    (tget (tset t n p) m).isSome = true := by
+  by_cases e : n = m
+  · subst e; rw [tget_tset_self]; rfl
+  · rw [tget_tset_ne t n m p e]; exact h
+
+theorem Covered_compile (s : St ν α) (hw : WF s) : Covered (compile s).1 := by
+  unfold compile
+  simp only
+  cases hc : compileTable Owner.model s.model s.userPriors with
+  | none => intro e he; simp at he
+  | some r =>
+    obtain ⟨es, ps, t⟩ := r
+    obtain ⟨hl1, hm1, hz1⟩ := compileTable_lookup .model s.model s.userPriors (es, ps, t) hw.model hc
+    simp only at hl1 hm1 hz1 ⊢
+    cases hc2 : compileTable Owner.obs s.obs t with
+    | none =>
+      intro e he
+      simp only at he ⊢
+      obtain ⟨p, hp⟩ := mem_zip_of_mem es ps hl1 e he
+      rw [hz1 (e, p) hp]; rfl
+    | some r2 =>
+      obtain ⟨es2, ps2, t2⟩ := r2
+      obtain ⟨hl2, hm2, hz2⟩ := compileTable_lookup .obs s.obs t (es2, ps2, t2) hw.obs hc2
+      simp only at hl2 hm2 hz2 ⊢
+      intro e he
+      simp only at he ⊢
+      rcases List.mem_append.1 he with he | he
+      · obtain ⟨p, hp⟩ := mem_zip_of_mem es ps hl1 e he
+        have hn : e.name ∉ names s.obs := fun ho => hw.disj ho (hm1 e he).1
+        rw [compileTable_frame .obs s.obs t (es2, ps2, t2) hc2 e.name hn, hz1 (e, p) hp]; rfl
+      · obtain ⟨p, hp⟩ := mem_zip_of_mem es2 ps2 hl2 e he
+        rw [hz2 (e, p) hp]; rfl
+
+theorem Covered_of_same {s s' : St ν α} (h : Covered s) (hc : s'.compiled = s.compiled) (hf : s'.fitPriors = s.fitPriors) :
+    Covered s' := by
+  intro e he
+  rw [hc] at he; rw [hf]; exact h e he
+
+theorem fitPriors_withParam (s : St ν α) (n : ν) (f : Param ν α → Param ν α) :
+    (withParam s n f).1.fitPriors = s.fitPriors := by
+  unfold withParam
+  simp only
+  split
+  · cases ownerOf s n <;> simp [setTable]
+  · simp
+
+theorem fitPriors_withDerived (s : St ν α) (n : ν) (c : Bool) : (withDerived s n c).1.fitPriors = s.fitPriors := by
+  unfold withDerived
+  simp only
+  split
+  · simp
+  · split <;> simp
+
+theorem Covered_step (s : St ν α) (op : Op ν α) (hw : WF s) (h : Covered s) : Covered (step s op).1 := by
+  cases op with
+  | compile => exact Covered_compile s hw
+  | enableFit n => exact Covered_of_same h (compiled_withParam s n _).1 (fitPriors_withParam s n _)
+  | disableFit n => exact Covered_of_same h (compiled_withParam s n _).1 (fitPriors_withParam s n _)
+  | setBoundary n a b => exact Covered_of_same h (compiled_withParam s n _).1 (fitPriors_withParam s n _)
+  | setFactorBoundary n a b => exact Covered_of_same h (compiled_withParam s n _).1 (fitPriors_withParam s n _)
+  | enableDerived n => exact Covered_of_same h (compiled_withDerived s n _).1 (fitPriors_withDerived s n _)
+  | disableDerived n => exact Covered_of_same h (compiled_withDerived s n _).1 (fitPriors_withDerived s n _)
+  | setMode n m =>
+    refine Covered_of_same h ?_ ?_
+    · simp only [step]
+      split
+      · split
+        · rfl
+        · cases ownerOf s n <;> simp [setTable]
+      · rfl
+    · simp only [step]
+      split
+      · split
+        · rfl
+        · cases ownerOf s n <;> simp [setTable]
+      · rfl
+  | setPrior n p =>
+    simp only [step]
+    split
+    · intro e he
+      exact tget_tset_isSome s.fitPriors n e.name p (h e he)
+    · exact h
+  | updateModel v =>
+    refine Covered_of_same h ?_ ?_
+    · simp only [step, updateModel]
+      split
+      · rfl
+      · exact (compiled_applyUpdate _ _ _ _).1
+    · simp only [step, updateModel]
+      split
+      · rfl
+      · have := frame_applyUpdate s.compiled s s.compiledPriors v
+        simp only [frame, Prod.mk.injEq] at this
+        exact this.2.2.2.2.2.1
+
+theorem Covered_run (ops : List (Op ν α)) : ∀ (s : St ν α), WF s → Covered s → Covered (run s ops) := by
+  induction ops with
+  | nil => intro s _ h; exact h
+  | cons op ops ih =>
+    intro s hw h
+    simp only [run]
+    exact ih _ (WF_of_tableNames (tableNames_step s op) hw) (Covered_step s op hw h)
+
+theorem fitNamesAux_isSome (t : Table ν α) : ∀ (es : List (Entry ν α)),
+    (∀ e ∈ es, (tget t e.name).isSome = true) → (fitNamesAux t es).isSome = true := by
+  intro es
+  induction es with
+  | nil => intro _; rfl
+  | cons e es ih =>
+    intro h
+    have h1 := h e (by simp)
+    have h2 := ih (fun e' he' => h e' (by simp [he']))
+    cases hg : tget t e.name with
+    | none => rw [hg] at h1; cases h1
+    | some p =>
+      cases hr : fitNamesAux t es with
+      | none => rw [hr] at h2; cases h2
+      | some r => simp [fitNamesAux, hg, hr]
+
+end
+
 end Taurex.C07
